@@ -2,7 +2,7 @@
    enumeration order of the set, an unsorted one does, and the facts about the regenerated loop table. *)
 From Coq Require Import NArith List Bool Lia ZifyBool Permutation Sorted.
 Import ListNotations.
-Require Import OPC.Uni OPC.NamesThm OPC.Order OPC.Registry OPC.gen.GenLoops.
+Require Import OPC.Uni OPC.NamesThm OPC.Order OPC.Registry OPC.gen.GenLoops OPC.gen.GenImports.
 Open Scope N_scope.
 
 (* ------------------------------------------------------------------ str_leb is a total order *)
@@ -142,6 +142,19 @@ Proof.
   - intros x y _ _ H1 H2. unfold kle in H1, H2. now apply str_leb_antisym.
 Qed.
 
+(* a key that is injective on a pool is injective on every duplicate-free list drawn from the pool *)
+Lemma keys_distinct_sub {A} (key : A -> str) (pool : list A) : keys_distinct key pool = true ->
+  forall l, NoDup l -> (forall x, In x l -> In x pool) -> keys_distinct key l = true.
+Proof.
+  intros Hp. induction l as [|a l IH]; intros Hn Hin; [reflexivity|].
+  inversion Hn as [|? ? Hna Hnl]; subst. cbn [keys_distinct]. apply andb_true_iff. split.
+  - apply negb_true_iff. destruct (existsb (fun y => str_eqb (key a) (key y)) l) eqn:E; [|reflexivity].
+    apply existsb_exists in E. destruct E as [y [Hy He]]. apply str_eqb_eq in He.
+    assert (a = y) by (apply (keys_distinct_inj key pool Hp); [apply Hin; now left|apply Hin; now right|exact He]).
+    subst y. contradiction.
+  - apply IH; [exact Hnl|]. intros x Hx. apply Hin. now right.
+Qed.
+
 (* the Jinja filter: same, provided no two elements differ only in case *)
 Theorem jinja_sort_perm_invariant : forall l l', Permutation l l' -> keys_distinct lower l = true -> jinja_sort l = jinja_sort l'.
 Proof. intros l l'. apply ksort_perm_invariant. Qed.
@@ -240,6 +253,22 @@ Proof. vm_compute. reflexivity. Qed.
    a registration behind (RetryThm.failed_attempt_no_trace is the model's side of this) *)
 Theorem registries_are_persistent : gen_registries_persistent = true.
 Proof. vm_compute. reflexivity. Qed.
+
+(* stage A obligation: the sort key of Jinja's `| sort` (str.lower) is injective on the pool of fixed import lines that the property classes can
+   contribute (regenerated by probing every property class, required and optional, through the real parser): no two distinct lines tie *)
+Theorem import_pool_keys_distinct : keys_distinct lower gen_import_pool = true.
+Proof. vm_compute. reflexivity. Qed.
+
+Theorem import_probe_complete : gen_import_probe_complete = true.
+Proof. vm_compute. reflexivity. Qed.
+
+(* hence any import set made of pool lines is emitted in one order, whatever order the set enumerates them in *)
+Theorem pool_imports_sorted_invariant : forall l l', NoDup l -> (forall x, In x l -> In x gen_import_pool) ->
+  Permutation l l' -> jinja_sort l = jinja_sort l'.
+Proof.
+  intros l l' Hn Hin Hp. apply jinja_sort_perm_invariant; [exact Hp|].
+  apply (keys_distinct_sub lower gen_import_pool import_pool_keys_distinct); assumption.
+Qed.
 
 Theorem all_loops_sorted_if_fixed : known_fixed gen_loops = true -> forallb loop_ok gen_loops = true.
 Proof. apply ok_or_known_fixed. exact all_loops_sorted_except_known. Qed.
